@@ -11,7 +11,7 @@ for d in "$@"; do
   git -C $M checkout -q -- .; git -C $M clean -fdq
   git -C $M apply $ROOT/$d/patch.diff || { echo "$id APPLY-FAILED"; continue; }
   (unset GOFLAGS GOWORK; GOPROXY=off bin/gen_model $M $S/coq/Generated/Src.v $S/gm.json 2>&1 | tail -1)
-  (cd $S/coq && timeout 900 make -k -j16 Generated/Src.vo Proofs/SrcEqDerive.vo Proofs/SrcEqOtp.vo Proofs/SrcEqOcra.vo Properties/C01src.vo Properties/C02src.vo Properties/C03src.vo Properties/C04src.vo Properties/C05src.vo Properties/C06src.vo Properties/C07src.vo Properties/C10src.vo Properties/C13src.vo Properties/C14src.vo 2>&1 | grep -A3 '^File' | grep -v '^--' | head -12)
+  (cd $S/coq && timeout 900 make -k -j16 Generated/Src.vo Proofs/SrcEqDecode.vo Proofs/SrcEqDerive.vo Proofs/SrcEqValidate.vo Proofs/SrcEqHotp.vo Proofs/SrcEqTotp.vo Proofs/SrcEqOtp.vo Proofs/SrcEqOcraV.vo Proofs/SrcEqOcra.vo Properties/C14src2.vo Properties/C01src.vo Properties/C02src.vo Properties/C03src.vo Properties/C04src.vo Properties/C05src.vo Properties/C06src.vo Properties/C07src.vo Properties/C10src.vo Properties/C13src.vo Properties/C14src.vo 2>&1 | grep -A2 '^File' | grep -v '^--' | head -9)
   ok=""; for f in C01 C02 C03 C04 C05 C06 C07 C10 C13 C14; do [ $S/coq/Properties/${f}src.vo -nt $S/coq/Generated/Src.v ] && ok="$ok $f"; done
   echo "$id source-tie holds for:$ok"
 done
